@@ -29,7 +29,9 @@ def gen_hard(rng, seq):
         r = rng.random()
         if r < 0.2:
             r2 = rng.random()
-            if r2 < 0.2:
+            if r2 < 0.1:
+                cs.append(("AvoidChanges", kw(location=None, max_edits_percent=rng.choice([1, 10, 34, 50]))))
+            elif r2 < 0.2:
                 cs.append(("AvoidChanges", kw(location=rloc(rng, n, strands=(0, 1), minlen=3), max_edits_percent=rng.choice([1, 10, 34, 50]))))
             elif r2 < 0.7:
                 cs.append(("AvoidChanges", kw(location=rloc(rng, n, strands=(0, 1, -1)))))
@@ -109,8 +111,17 @@ def impl_case(case):
     from dnachisel.MutationSpace import MutationSpace
     _, seq, descs, brute = case
     sps = []
-    for d in descs:
-        sp = build_spec(d).initialized_on_problem(FakeProblem(seq), role="constraint")
+    objs = [build_spec(d) for d in descs]
+    from .specs import reused, other_sequence
+    if reused(case, 3):
+        # the user's specification objects have already served another problem (another sequence)
+        import dnachisel as dc0
+        try:
+            dc0.DnaOptimizationProblem(other_sequence(seq), constraints=objs, logger=None)
+        except Exception:  # noqa
+            pass
+    for d, obj in zip(descs, objs):
+        sp = obj.initialized_on_problem(FakeProblem(seq), role="constraint")
         if type(sp).__name__ == "EnforceTranslation":
             loc = sp.location
             sp._verif_first_codon = seq[loc.start:loc.start + 3] if loc.strand != -1 else rcs(seq[loc.end - 3:loc.end])
@@ -126,7 +137,7 @@ def impl_case(case):
     # construction through the real problem class: error class and initial sequence
     import dnachisel as dc
     try:
-        pr = dc.DnaOptimizationProblem(seq, constraints=[build_spec(d) for d in descs], logger=None)
+        pr = dc.DnaOptimizationProblem(seq, constraints=objs, logger=None)
         res["constructed"] = True
         res["initial_in_space"] = all(pr.sequence[c.start:c.end] in c.variants for c in pr.mutation_space.choices_list)
     except ValueError as e:
